@@ -155,6 +155,16 @@ func vScripts() []vScript {
 			dr.opObs(w.obsBy(40, d2, k2.TxHash[:]), "member")
 			dr.opObs(w.obsBy(41, d2, k2.TxHash[:]), "member")
 		}},
+		{"c04-digest-is-a-function-of-the-message-fields", func(dr *vDriver, w *vWorld) {
+			dr.opClock(1000)
+			dr.opSetGS(w.set(members(3, 1), 7))
+			for _, ts := range []time.Time{{}, time.Unix(0, 0), time.Unix(-1, 0), time.Unix(1<<32, 0), time.Unix(1700000000, 999999999), time.Unix(1700000001, 0)} {
+				k := w.msg(0)
+				k.Timestamp = ts
+				dr.opMsg(k)
+				dr.opLoop(0)
+			}
+		}},
 		{"c01-peer-copy-never-replaces-a-stored-vaa", func(dr *vDriver, w *vWorld) {
 			mem := members(4, 1)
 			gs := w.set(mem, 2)
